@@ -32,6 +32,7 @@ use nom::bytes::complete::take;
 use nom::error::{Error as NomError, ErrorKind};
 use nom::number::complete::{be_f64, be_i32, be_u8, be_u16, be_u32, be_u64};
 use std::borrow::Cow;
+use std::cell::Cell;
 use std::collections::{BTreeMap, HashMap};
 use std::io::Read;
 use std::str;
@@ -42,7 +43,36 @@ const MAX_TUPLE_SIZE: usize = 10_000_000;
 const MAX_MAP_SIZE: usize = 1_000_000;
 const MAX_BINARY_SIZE: usize = 100_000_000;
 
+/// Containers nested deeper than this are rejected instead of recursing until the stack is gone.
+const MAX_NESTING_DEPTH: usize = 256;
+
 type NomResult<'a, T> = IResult<&'a [u8], T, NomError<&'a [u8]>>;
+
+thread_local! {
+    static NESTING_DEPTH: Cell<usize> = const { Cell::new(0) };
+}
+
+/// Counts one level of parser recursion for as long as it is alive.
+struct NestingGuard;
+
+impl NestingGuard {
+    fn enter(input: &[u8]) -> Result<Self, nom::Err<NomError<&[u8]>>> {
+        NESTING_DEPTH.with(|depth| {
+            if depth.get() >= MAX_NESTING_DEPTH {
+                Err(nom::Err::Failure(NomError::new(input, ErrorKind::TooLarge)))
+            } else {
+                depth.set(depth.get() + 1);
+                Ok(NestingGuard)
+            }
+        })
+    }
+}
+
+impl Drop for NestingGuard {
+    fn drop(&mut self) {
+        NESTING_DEPTH.with(|depth| depth.set(depth.get().saturating_sub(1)));
+    }
+}
 
 const ATOM_CACHE_SIZE: usize = 256;
 
@@ -245,6 +275,7 @@ fn parse_versioned_term_with_cache<'a>(
 }
 
 fn parse_term<'a>(input: &'a [u8], cache: &AtomCache) -> NomResult<'a, OwnedTerm> {
+    let _nesting = NestingGuard::enter(input)?;
     let (input, tag) = be_u8(input)?;
     parse_term_from_tag(input, tag, cache)
 }
@@ -915,6 +946,7 @@ fn parse_term_borrowed<'a>(
     ctx: &mut ParsingContext,
 ) -> NomResult<'a, BorrowedTerm<'a>> {
     ctx.byte_offset = original_len - input.len();
+    let _nesting = NestingGuard::enter(input)?;
     let (input, tag) = be_u8(input)?;
 
     match tag {
